@@ -97,6 +97,8 @@ RCP<const Basic> Infty::conjugate() const
 
 RCP<const Number> Infty::add(const Number &other) const
 {
+    if (is_a<NaN>(other))
+        return Nan;
     if (not is_a<Infty>(other))
         return rcp_from_this_cast<Number>();
 
@@ -131,7 +133,7 @@ RCP<const Number> Infty::mul(const Number &other) const
 
 RCP<const Number> Infty::div(const Number &other) const
 {
-    if (is_a<Infty>(other)) {
+    if (is_a<Infty>(other) or is_a<NaN>(other)) {
         return Nan;
     } else {
         if (other.is_positive())
